@@ -55,6 +55,7 @@ func (p *Prog) ownerChain(fn *ssa.Function) []string {
 // owner found first.
 func (p *Prog) ownedBy(fn *ssa.Function, allowed func(name string) bool) (string, bool) {
 	seen := map[*ssa.Function]bool{}
+	var child *ssa.Function // the function whose callers are being looked at
 	var rec func(f *ssa.Function, depth int) (string, bool)
 	rec = func(f *ssa.Function, depth int) (string, bool) {
 		top := TopLevel(f)
@@ -62,10 +63,11 @@ func (p *Prog) ownedBy(fn *ssa.Function, allowed func(name string) bool) (string
 			return fnName(top), true
 		}
 		// a function of the reference tree that used to reach the code through an allowed function (it called the
-		// allowed wrapper there) and now calls the helper the wrapper was reduced to
-		if depth > 0 && p.onReferenceTree(top) {
+		// allowed wrapper there) and now calls the helper the wrapper was reduced to: the wrapper still exists and
+		// calls that helper itself
+		if depth > 0 && p.onReferenceTree(top) && child != nil && !p.onReferenceTree(child) {
 			for _, callee := range refCallees(fnName(top)) {
-				if allowed(callee) {
+				if allowed(callee) && p.callsStatically(callee, child) {
 					return callee, true
 				}
 			}
@@ -118,7 +120,10 @@ func (p *Prog) ownedBy(fn *ssa.Function, allowed func(name string) bool) (string
 				}
 			}
 			cnt++
+			saved := child
+			child = top
 			o, ok := rec(e.Caller.Func, depth+1)
+			child = saved
 			if !ok {
 				return "", false
 			}
@@ -133,7 +138,10 @@ func (p *Prog) ownedBy(fn *ssa.Function, allowed func(name string) bool) (string
 				continue
 			}
 			cnt++
+			saved := child
+			child = top
 			o, ok := rec(u, depth+1)
+			child = saved
 			if !ok {
 				return "", false
 			}
@@ -386,10 +394,10 @@ func (p *Prog) ownedByOutside(fn *ssa.Function, cluster []*ssa.Function, allowed
 			owner = fnName(cf)
 			continue
 		}
-		if p.onReferenceTree(cf) {
+		if p.onReferenceTree(cf) && !p.onReferenceTree(TopLevel(fn)) {
 			viaRef := ""
 			for _, callee := range refCallees(fnName(cf)) {
-				if allowed(callee) {
+				if allowed(callee) && p.callsStatically(callee, TopLevel(fn)) {
 					viaRef = callee
 				}
 			}
@@ -501,4 +509,20 @@ func refCallees(name string) []string {
 		}
 	}
 	return out
+}
+
+// callsStatically: the repository function named name calls target (directly, also from one of its closures).
+func (p *Prog) callsStatically(name string, target *ssa.Function) bool {
+	f := p.ByNm[name]
+	if f == nil || target == nil {
+		return false
+	}
+	for _, g := range WithClosures(f) {
+		for _, call := range callsIn(g) {
+			if call.Common().StaticCallee() == target {
+				return true
+			}
+		}
+	}
+	return false
 }
